@@ -54,6 +54,7 @@ class PathState:
         self.unknown_feasibility = 0
         self.no_fork = 0           # >0 inside quantifier bodies: a real fork is not allowed
         self.known = {}            # z3 term id -> list of (frozenset(scope ids), bool): entailed truth values
+        self.on_fact = None        # hook(term): called when a fact is added to the context (equality learning)
 
     # ---- naming -----------------------------------------------------------------
     def fresh_name(self, base):
@@ -88,10 +89,16 @@ class PathState:
             return
         t = cond.t if isinstance(cond, SBool) else cond
         self._add(self._scoped(t))
+        if self.on_fact is not None:
+            self.on_fact(t)
 
     def _add(self, t):
         self.pc.append(t)
         self.solver.add(t)
+
+    def axiom(self, t):
+        """Add an instance of a universally valid fact: holds in every context, so it is not scoped."""
+        self._add(t)
 
     def check(self, *extra):
         """sat / unsat / unknown of pc + scopes + extra."""
@@ -169,7 +176,10 @@ class PathState:
         elif d == MERGE:
             raise AssertionError('decision log out of sync (merge at fork)')
         self.decisions.append(d)
-        self._add(self._scoped(t if d else z3.Not(t)))
+        fact = t if d else (t.arg(0) if z3.is_not(t) else z3.Not(t))
+        self._add(self._scoped(fact))
+        if self.on_fact is not None:
+            self.on_fact(fact)
         return d
 
     def choose(self, n, conds=None):
